@@ -44,7 +44,7 @@ PROPS = {
                 rule="L2: MOV/XCHG/PUSH/POP/PUSHF/POPF/LAHF/SAHF/XLAT over all operand kinds x adversarial SS:SP (0, 1, FFFFh, top of memory); "
                      "stackseq = straight-line random interleavings of pushes/pops/moves (length up to 64 quick / 2000 thorough) executed line by line "
                      "against the model and the reference; non-trivial = more than one instruction or a state change"),
-    "C06": dict(modules=["Emu8086.Props.C06"], runs=[("l2", "jumpx"), ("l2", "jump")], gen=["Arch", "ILiterals", "Jumps"],
+    "C06": dict(modules=["Emu8086.Props.C06"], runs=[("l2", "jumpx"), ("l2", "jump"), ("l3", "jumpspell")], gen=["Arch", "ILiterals", "Jumps"],
                 rule="L2 jumpx: EVERY jump mnemonic of the interpreter x all 32 settings of CF/PF/ZF/SF/OF x 4 settings of the other flag bits "
                      "(x CX lattice + random for JCXZ/LOOP*); jump: random jumps/calls/rets/ints; non-trivial = outcome other than plain NEXT or CX changed"),
     "C07": dict(modules=["Emu8086.Props.C07"], runs=[("l2", "string"), ("l2", "rep"), ("l4", "strings")], gen=["Arch", "ILiterals"],
